@@ -42,6 +42,8 @@ theorem ifaceEq_eq_fixed (d : Dev) (l r : Val) (h : d.uncmp = true → sameConta
   · cases l <;> cases r <;> simp [ifaceEq, hu, Dev.fixed]
   · have := h hu
     cases l <;> cases r <;> simp_all [ifaceEq, sameContainer, isArr, isObj]
+    case ext.ext a b =>
+      by_cases h1 : a.ty = b.ty <;> cases h2 : a.cmp <;> simp_all [sameUExt]
 
 theorem inLoop_eq_fixed (d : Dev) (l : Val) (xs : List Val)
     (h : d.uncmp = true → xs.any (sameContainer l) = false) : inLoop d l xs = inLoop Dev.fixed l xs := by
